@@ -203,10 +203,22 @@ static const char *sinks_fini(char *sig, size_t sign)
 
 /* fixture + heap tracker around one case */
 static struct px_fix g_fx;
+/* refused memory (merge fault 'a'): ubuf_block_mem.c / ubuf_mem_common.c are compiled with -Dmalloc=vf_malloc; together with the
+ * counting umem manager, "the k-th next memory request" covers buffer areas, dictionaries and buffer descriptors */
+void *vf_malloc(size_t n);
+void *vf_malloc(size_t n)
+{
+    if (g_fx.cumem.fail_in > 0 && --g_fx.cumem.fail_in == 0) {
+        g_fx.cumem.faults++;
+        return NULL;
+    }
+    return (malloc)(n);
+}
+static bool g_tight_dicts; /* dictionaries grow by one octet at a time: every added attribute is a memory request */
 static void fix_begin(void)
 {
     pxm_begin();
-    struct px_cfg cfg = {.pool = 0, .prepend = 0, .append = 0, .align = 0};
+    struct px_cfg cfg = {.pool = 0, .prepend = 0, .append = 0, .align = 0, .udict_min = g_tight_dicts ? 1 : 0, .udict_extra = g_tight_dicts ? 1 : 0};
     px_fix_init(&g_fx, &cfg);
     sinks_init();
 }
@@ -355,8 +367,8 @@ static void mcase_str(const struct mcase *c, char *out, size_t n)
     o += snprintf(out + o, n - o, ":%d:", c->seg);
     if (c->ftype == 'n')
         snprintf(out + o, n - o, "n");
-    else if (c->ftype == 'c')
-        snprintf(out + o, n - o, "c%d.%d", c->fa, c->fb);
+    else if (c->ftype == 'c' || c->ftype == 'a')
+        snprintf(out + o, n - o, "%c%d.%d", c->ftype, c->fa, c->fb);
     else
         snprintf(out + o, n - o, "%c%d", c->ftype, c->fa);
 }
@@ -389,6 +401,9 @@ static bool mcase_parse(const char *str, struct mcase *c)
     c->ftype = fault[0];
     if (c->ftype == 'c') {
         if (sscanf(fault + 1, "%d.%d", &c->fa, &c->fb) != 2 || c->fb < 0 || c->fb >= NCORR)
+            return false;
+    } else if (c->ftype == 'a') {
+        if (sscanf(fault + 1, "%d.%d", &c->fa, &c->fb) != 2 || c->fb < 1 || c->fb > 4)
             return false;
     } else if (c->ftype != 'n')
         c->fa = atoi(fault + 1);
@@ -515,13 +530,16 @@ static const char *merge_run(const struct mcase *c, char *sig, size_t sign)
         disc_next = false;
         g_out.step = p;
         g_inputs++;
+        if (c->ftype == 'a' && p == c->fa)
+            g_fx.cumem.fail_in = c->fb; /* the fb-th memory request made while this payload is handled is refused */
         upipe_input(psim, u, NULL);
+        g_fx.cumem.fail_in = 0;
     }
     upipe_release(psim);
     return fix_end(sig, sign);
 }
 
-static const char *fclass(char t) { return t == 'n' ? "nofault" : t == 'd' ? "disc" : t == 'm' ? "missing" : "corrupt"; }
+static const char *fclass(char t) { return t == 'n' ? "nofault" : t == 'd' ? "disc" : t == 'm' ? "missing" : t == 'a' ? "refused-memory" : "corrupt"; }
 
 static void merge_check(const struct mcase *c, const char *cid, const char *endmsg, const char *endsig)
 {
@@ -557,6 +575,8 @@ static void merge_check(const struct mcase *c, const char *cid, const char *endm
                 need[i] = OPT; /* all octets did arrive; dropping it is what the flag asks for */
             if (c->ftype == 'm' && ML.sp[i] <= c->fa && c->fa <= ML.ep[i])
                 need[i] = FORB; /* octets are missing: cannot be output complete */
+            if (c->ftype == 'a' && ML.sp[i] <= c->fa && c->fa <= ML.ep[i])
+                need[i] = OPT; /* part of it was in the payload during which memory was refused: output whole or not at all */
         }
         int last = -1;
         bool seen[MAXSEC] = {false, false, false};
@@ -730,6 +750,10 @@ static void merge_faults(struct mcase *c, int npay)
         else if (*f == 'd' || *f == 'm')
             for (c->fa = 0; c->fa < npay; c->fa++)
                 merge_case(c);
+        else if (*f == 'a')
+            for (c->fa = 0; c->fa < npay; c->fa++)
+                for (c->fb = 1; c->fb <= 3; c->fb++)
+                    merge_case(c);
         else if (*f == 'c')
             for (c->fa = 0; c->fa < c->nsec; c->fa++)
                 for (c->fb = 0; c->fb < NCORR; c->fb++)
@@ -931,7 +955,9 @@ static void script_str(const char *mode, const struct script *s, char *out, size
                 o += snprintf(out + o, n - o, "a%d.-,", p->k);
             else
                 o += snprintf(out + o, n - o, "a%d.%02x%02x.%02x%02x,", p->k, p->f[0], p->f[1], p->m[0], p->m[1]);
-        } else if (p->t == 'a' || p->t == 'r')
+        } else if (p->t == 'A')
+            o += snprintf(out + o, n - o, "A%d.%d,", p->k, p->ty);
+        else if (p->t == 'a' || p->t == 'r')
             o += snprintf(out + o, n - o, "%c%d,", p->t, p->k);
         else if (p->t == 's')
             o += snprintf(out + o, n - o, "s%d.%d,", p->ty, p->seg);
@@ -974,7 +1000,7 @@ static bool script_parse(const char *str, const char *mode, struct script *s)
         } else if (o->t == 's') {
             if (sscanf(p, "%d.%d%n", &o->ty, &o->seg, &used) != 2)
                 return false;
-        } else if (o->t == 'i') {
+        } else if (o->t == 'i' || o->t == 'A') {
             if (sscanf(p, "%d.%d%n", &o->k, &o->ty, &used) != 2)
                 return false;
         } else if (o->t != 'S' && o->t != 'm')
@@ -1361,6 +1387,25 @@ static bool join_case(const struct script *s)
             sub[o->k] = upipe_void_alloc_sub(join, px_probe(&g_fx));
             assert(sub[o->k]);
             ubase_assert(upipe_set_flow_def(sub[o->k], fd));
+        } else if (o->t == 'A') {
+            /* a new input whose definition makes the joiner rebuild its own (octet rate, section interval, latency), with the
+             * ty-th memory request refused meanwhile; the input then gets its definition again, undisturbed. The joiner may
+             * refuse or complain, but the inputs already there and this one must keep flowing. */
+            if (sub[o->k] != NULL || main_released) {
+                valid = false;
+                break;
+            }
+            sub[o->k] = upipe_void_alloc_sub(join, px_probe(&g_fx));
+            assert(sub[o->k]);
+            struct uref *fd2 = uref_dup(fd);
+            ubase_assert(uref_block_flow_set_octetrate(fd2, 1000 + 100 * o->k));
+            ubase_assert(uref_ts_flow_set_psi_section_interval(fd2, 27000 * (o->k + 1)));
+            ubase_assert(uref_clock_set_latency(fd2, 1234));
+            g_fx.cumem.fail_in = o->ty;
+            (void)upipe_set_flow_def(sub[o->k], fd2);
+            g_fx.cumem.fail_in = 0;
+            (void)upipe_set_flow_def(sub[o->k], fd2);
+            uref_free(fd2);
         } else if (o->t == 'r') {
             if (sub[o->k] == NULL) {
                 valid = false;
@@ -1446,6 +1491,7 @@ static bool join_case(const struct script *s)
     return true;
 }
 
+static bool g_join_faults;
 static void join_dfs(struct script *s, int depth, int maxin, bool livek[NSINK], int nin, bool mainrel)
 {
     if (s->n > 0 && !deadline_hit()) {
@@ -1471,6 +1517,16 @@ static void join_dfs(struct script *s, int depth, int maxin, bool livek[NSINK], 
         s->n++;
         join_dfs(s, depth, maxin, livek, nin, mainrel);
         s->n--;
+        if (g_join_faults)
+            for (int ty = 1; ty <= 6; ty++) {
+                memset(o, 0, sizeof(*o));
+                o->t = 'A';
+                o->k = freek;
+                o->ty = ty;
+                s->n++;
+                join_dfs(s, depth, maxin, livek, nin, mainrel);
+                s->n--;
+            }
         livek[freek] = false;
     }
     for (int k = 0; k < NSINK; k++)
@@ -1531,6 +1587,7 @@ int main(int argc, char **argv)
         else if (!strcmp(argv[i], "--long") && i + 1 < argc) MP.longkinds = argv[++i];
         else if (!strcmp(argv[i], "--contents") && i + 1 < argc) MP.contents = argv[++i];
         else if (!strcmp(argv[i], "--faults") && i + 1 < argc) MP.faults = argv[++i];
+        else if (!strcmp(argv[i], "--join-faults") && i + 1 < argc) g_join_faults = g_tight_dicts = atoi(argv[++i]) != 0;
         else if (!strcmp(argv[i], "--maxsec") && i + 1 < argc) MP.maxsec = atoi(argv[++i]);
         else if (!strcmp(argv[i], "--maxcuts") && i + 1 < argc) MP.maxcuts = atoi(argv[++i]);
         else if (!strcmp(argv[i], "--stuff") && i + 1 < argc) MP.nstuff = parse_list(argv[++i], MP.stuff, 4);
